@@ -52,10 +52,19 @@ func (fr *Frame) exec(in ssa.Instruction) {
 			fr.set(i, &Val{T: "0", S: SInt, Typ: i.Type()}) // descriptor-only
 			return
 		}
-		fr.checkInteriorEscape(i, deref(i.Type()))
+		frozen := fr.checkInteriorEscape(i, deref(i.Type()))
 		base := fr.val(i.X)
 		t := vc.faddr(fieldHeapName(st, i.Field), base.T)
 		fr.set(i, &Val{T: vc.define("fa", SInt, t), S: SInt, Typ: i.Type()})
+		if frozen {
+			// the address of a field of a private struct that is never written again escapes (it is
+			// stored or returned): from here on it is an ordinary pointer whose cell holds the field's value
+			fa := fr.vals[i]
+			hn, hs := U.ptrHeapT(deref(i.Type()))
+			cur := fr.loadLoc(fr.locOf(i))
+			vc.assume(fr.reach, and(not(eq(fa.T, "0")), eq(sel(vc.heap(fr.st, hn, hs), fa.T), cur.T)))
+			vc.note("interior pointer to a field of a private, never rewritten struct treated as a cell holding the field's value in %s", relFuncName(fr.fn))
+		}
 	case *ssa.Field:
 		x := fr.val(i.X)
 		info := U.structInfo[x.S]
@@ -507,15 +516,15 @@ func (fr *Frame) execIndexAddr(i *ssa.IndexAddr) {
 // used for loads, stores, further addressing and sync / sync/atomic calls. Anything
 // else (stored, passed, returned, captured) is outside the memory model: the function
 // is reported as unsupported, never as proved.
-func (fr *Frame) checkInteriorEscape(v ssa.Value, elem types.Type) {
+func (fr *Frame) checkInteriorEscape(v ssa.Value, elem types.Type) (frozen bool) {
 	if isStruct(elem) {
 		if _, isIdx := v.(*ssa.IndexAddr); !isIdx {
-			return // struct-valued fields are flattened: their address is a genuine ref
+			return false // struct-valued fields are flattened: their address is a genuine ref
 		}
 	}
 	refs := v.Referrers()
 	if refs == nil {
-		return
+		return false
 	}
 	for _, r := range *refs {
 		switch u := r.(type) {
@@ -523,6 +532,10 @@ func (fr *Frame) checkInteriorEscape(v ssa.Value, elem types.Type) {
 		case *ssa.UnOp:
 		case *ssa.Store:
 			if u.Val == v {
+				if fa, ok := v.(*ssa.FieldAddr); ok && frozenPrivateField(fa) {
+					frozen = true
+					continue
+				}
 				fr.vc.unsupported("interior pointer stored in " + relFuncName(fr.fn))
 			}
 		case *ssa.FieldAddr, *ssa.IndexAddr:
@@ -542,6 +555,57 @@ func (fr *Frame) checkInteriorEscape(v ssa.Value, elem types.Type) {
 			fr.vc.unsupported(fmt.Sprintf("interior pointer escapes (%T) in %s", r, relFuncName(fr.fn)))
 		}
 	}
+	return frozen
+}
+
+// frozenPrivateField: fa addresses a (nested) field of a struct allocated by this very function
+// (a local that escapes only through such field addresses, e.g. the spilled copy of a value
+// receiver) which is initialised once, as a whole, in the entry block before anything else touches
+// it and never written afterwards.  Then the field's address may escape: nobody can change the
+// field except through that pointer, so the pointer behaves like a cell holding the field's value.
+func frozenPrivateField(fa *ssa.FieldAddr) bool {
+	var root *ssa.Alloc
+	x := ssa.Value(fa)
+	for {
+		f, ok := x.(*ssa.FieldAddr)
+		if !ok {
+			break
+		}
+		x = f.X
+	}
+	root, ok := x.(*ssa.Alloc)
+	if !ok {
+		return false
+	}
+	inits := 0
+	var ok2 func(v ssa.Value, isRoot bool) bool
+	ok2 = func(v ssa.Value, isRoot bool) bool {
+		refs := v.Referrers()
+		if refs == nil {
+			return true
+		}
+		for _, r := range *refs {
+			switch u := r.(type) {
+			case *ssa.DebugRef, *ssa.UnOp:
+			case *ssa.FieldAddr:
+				if u.X != v || !ok2(u, false) {
+					return false
+				}
+			case *ssa.Store:
+				if u.Addr == v {
+					if !isRoot || u.Block().Index != 0 {
+						return false // a field (or the struct outside the entry block) is written
+					}
+					inits++
+				}
+				// u.Val == v: the escape itself
+			default:
+				return false
+			}
+		}
+		return true
+	}
+	return ok2(root, true) && inits <= 1
 }
 
 func (fr *Frame) execIndex(i *ssa.Index) {
